@@ -10,6 +10,6 @@ OpsV == {"GoNew", "Sentinel", "Errno", "New", "Newf", "NewfW", "PkgNew", "Unimpl
          "Handled", "HandledWithMessage", "HandledInDomain", "WrapWithHTTPCode",
          "WrapWithGrpcCode", "GoWrap", "PkgWithMessage", "PkgWrap", "OsPathError", "UWrap",
          "Join", "GoJoin", "GoWrap2", "Grpc"}
-ShapesV == {<<"w1">>, <<"w1", "SEP", "w2">>, <<"w2", "NL", "w1">>}
+ShapesV == {<<"w1">>, <<"w1", "SEP", "w2">>, <<"w2", "NL", "w1">>, <<"L_big">>, <<"w1", "L_big">>}
 Shapes2V == {<<"w2">>}
 =============================================================================
